@@ -59,6 +59,8 @@ PROOFS = {
     'C12': ['ReverseNeverAboveClosedForm ((offer+x)*(y(1-c) - ask) <= x*y(1-c))',
             'ReverseAtMostRoundingBelow (the bound of PropsMath!C12_Reverse: at most one unit per truncating step below)'],
 }
+# properties whose checks also replay MC_System behaviours (whole deployment from scratch) into the contracts
+DIRB_SYSTEM = ('C11', 'C13', 'C14', 'C16', 'C17')
 PROOF_MODULE = {'C10': 'GuardLemmas', 'C12': 'GuardLemmas'}
 
 MATH_N = {'quick': 1600, 'thorough': 24000}
@@ -104,7 +106,7 @@ def mc_router_cfg(tier):
 
 def mc_system_cfg(tier):
     c = core.int_consts()
-    c += '  MAXSTEPS = %d\n  COMMISSION = 1\n' % (8 if tier == 'thorough' else 7)
+    c += '  MAXSTEPS = %d\n  COMMISSION = 1\n  EXPORT = FALSE\n' % (8 if tier == 'thorough' else 7)
     c += '  KeyBytes <- MCKeyBytes\n  AddrOfIndex <- MCAddrOfIndex\n  LEGACY = {}\n'
     c += 'SPECIFICATION Spec\nVIEW View\nPROPERTY StepProp\nINVARIANT StateInv\nCHECK_DEADLOCK FALSE\n'
     return c
@@ -245,10 +247,15 @@ def check(pid, tier, seed):
         reports, samples, n_events, apps_idx, lines_all, stages = [], [], 0, [], [], []
         devs = 0
         # ---- function-level traces -------------------------------------------------------------
-        if spec.get('math'):
+        math_kinds = [k for k in spec.get('math', []) if k not in core.UNBOUND]
+        if spec.get('math') and len(math_kinds) < len(spec['math']):
+            cov['function_level_unbound'] = [k for k in spec['math'] if k in core.UNBOUND]
+            stages.append({'stage': 'math', 'kinds': cov['function_level_unbound'], 'events': 0, 'applicable': 0,
+                           'note': 'the directly called function changed its signature on this tree: no function-level events; decided at system level'})
+        if math_kinds:
             tp = os.path.join(workdir, 'math.ndjson')
             n_math = (MATH_N_CHEAP if pid in ('C08', 'C18') else MATH_N)[tier]
-            core.harness(['math', '--seed', str(seed), '--n', str(n_math), '--kinds', ','.join(spec['math']),
+            core.harness(['math', '--seed', str(seed), '--n', str(n_math), '--kinds', ','.join(math_kinds),
                           '--out', tp])
             res = core.validate_trace('Trace_Math', tp, os.path.join(workdir, 'tv_math'))
             for r in res['reports']:
@@ -263,18 +270,30 @@ def check(pid, tier, seed):
                 e = json.loads(res['lines'][i])
                 samples.append({'stage': 'math', 'call': e.get('k'), 'input': e.get('h'), 'observed': e.get('r', e.get('r1'))})
             stages.append({'stage': 'math', 'kinds': spec['math'], 'events': res['n'], 'applicable': len(idx)})
-        # ---- direction B: behaviours of the small-scope model executed by the real contracts --------
-        if any(m == 'MC_Pool' for m, _ in spec.get('mc', [])) and not os.environ.get('VERIF_TRACES_ONLY'):
-            kinds = ['NN', 'NC', 'CC'] if tier == 'thorough' else [['NN', 'NC', 'CC'][int(pid[1:]) % 3]]
-            num, depth = (3000, 10) if tier == 'thorough' else (240, 8)
-            scs = []
-            for k in kinds:
-                # three quarters of the behaviours over the well-formed shapes, one quarter over all shapes
-                for full, share in ((False, 3), (True, 1)):
-                    cfg = mc_pool_cfg(k, tier, full=full).replace('INVARIANT C20_State\n', '').replace('PROPERTY StepProp\n', '').replace('EXPORT = FALSE', 'EXPORT = TRUE')
-                    cfg = re.sub(r'MAXSTEPS = \d+', 'MAXSTEPS = %d' % depth, cfg)
-                    bs = dirb.generate(k, max(1, num * share // 4), depth, seed, os.path.join(workdir, 'simB_%s_%s' % (k, full)), cfg)
-                    scs += dirb.scenarios(k, bs, 'modelB-%d-%s' % (seed, 'all' if full else 'wf'))
+        # ---- direction B: behaviours of the small-scope models executed by the real contracts -------
+        dirb_pool = any(m == 'MC_Pool' for m, _ in spec.get('mc', []))
+        dirb_sys = pid in DIRB_SYSTEM
+        if (dirb_pool or dirb_sys) and not os.environ.get('VERIF_TRACES_ONLY'):
+            scs, kinds = [], []
+            if dirb_pool:
+                kinds = ['NN', 'NC', 'CC'] if tier == 'thorough' else [['NN', 'NC', 'CC'][int(pid[1:]) % 3]]
+                num, depth = (3000, 10) if tier == 'thorough' else (240, 8)
+                for k in kinds:
+                    # three quarters of the behaviours over the well-formed shapes, one quarter over all shapes
+                    for full, share in ((False, 3), (True, 1)):
+                        cfg = mc_pool_cfg(k, tier, full=full).replace('INVARIANT C20_State\n', '').replace('PROPERTY StepProp\n', '').replace('EXPORT = FALSE', 'EXPORT = TRUE')
+                        cfg = re.sub(r'MAXSTEPS = \d+', 'MAXSTEPS = %d' % depth, cfg)
+                        bs = dirb.generate(k, max(1, num * share // 4), depth, seed, os.path.join(workdir, 'simB_%s_%s' % (k, full)), cfg)
+                        scs += dirb.scenarios(k, bs, 'modelB-%d-%s' % (seed, 'all' if full else 'wf'))
+            if dirb_sys:
+                # the whole deployment from scratch: creations, allowances, provisions, swaps, routes, decimals
+                # re-registrations and withdrawals in the orders TLC draws
+                num, depth = (1500, 14) if tier == 'thorough' else (60, 12)
+                cfg = mc_system_cfg(tier).replace('INVARIANT StateInv\n', '').replace('PROPERTY StepProp\n', '').replace('EXPORT = FALSE', 'EXPORT = TRUE')
+                cfg = re.sub(r'MAXSTEPS = \d+', 'MAXSTEPS = %d' % depth, cfg)
+                bs = dirb.generate('SYS', num, depth, seed, os.path.join(workdir, 'simB_SYS'), cfg, module='MC_System')
+                scs += dirb.scenarios('SYS', bs, 'modelB-%d' % seed)
+                kinds = kinds + ['SYS']
             sp = os.path.join(workdir, 'modelB.scenarios')
             with open(sp, 'w') as f:
                 f.write('\n'.join(json.dumps(x) for x in scs) + '\n')
